@@ -177,8 +177,9 @@ func pairCase(e *core.Env, ci int, r *core.RNG, S, C string, per int, race bool)
 	var sessions uint64
 	// failed onward connections of a chained proxy legitimately count the bytes handed to the upstream client, which
 	// the harness cannot see: the statistics comparison is made on instances that ran success scenarios only
-	withFailures := r.Bool()
-	statsOK := !withFailures && !upDown
+	withFailures := r.Bool() || (strings.HasPrefix(S, "socks5") && C == "direct" && !race)
+	// (a direct upstream has no such hidden bytes: a refused, rejected or unresolvable onward connection relays nothing)
+	statsOK := (!withFailures || C == "direct") && !upDown
 	for k := 0; k < per; k++ {
 		sc := &scen{S: S, C: C, NoWait: noWait}
 		sc.Mode = modes[r.Intn(len(modes))]
@@ -193,6 +194,10 @@ func pairCase(e *core.Env, ci int, r *core.RNG, S, C string, per int, race bool)
 		sc.Fail = r.PickStr("", "", "", "", "refused", "reject", "nxdomain")
 		if !withFailures {
 			sc.Fail = ""
+		}
+		if strings.HasPrefix(S, "socks5") && C == "direct" && withFailures && k < 3 {
+			// the one pairing whose reply codes are judged exactly: every failure kind is exercised on every run
+			sc.Fail = []string{"refused", "reject", "nxdomain"}[k]
 		}
 		if upDown {
 			sc.Fail = "upstream-down"
